@@ -35,9 +35,10 @@ NoFault == "none"
 \*              ID is not of its sender's domain; the whole room then carries that room ID), everything built on
 \*              it being consistent.  A create event is allowed by the create rules alone.
 CreateFaults == {"create_prevs", "create_domain"}
+\* sigcopy    - (load) the input list carries the event twice, one of the two copies with a destroyed signature
 \* statedrop  - (send_join) the event is left out of the STATE list only: the auth chain still carries it, the
 \*              returned state lacks its (type, state_key)
-FaultKinds == {"badsig", "disallowed", "missing", "wrongroom", "nonstate", "dup", "malformed", "statedrop"} \cup CreateFaults
+FaultKinds == {"badsig", "disallowed", "missing", "wrongroom", "nonstate", "dup", "malformed", "statedrop", "sigcopy"} \cup CreateFaults
 ProvKinds == {"returns", "nothing", "errors"}
 
 (***************************************************************************)
